@@ -3,7 +3,7 @@ from .. import sockio
 
 ID = "C17"
 PROPS = ["theories/Props/C17.vo"]
-PINNED = ["C17_holds", "C17_ranges", "C17_count"]
+PINNED = ["C17_holds", "C17_ranges", "C17_count", "C17_first_unfilled"]
 CASES_MODULE = "Cases.C17"
 AREA = "sockio"
 ISOLATE = False
